@@ -2029,3 +2029,147 @@ mutant("c19-send-on-transport-read-earlier", "C19", "C19-D8", "engine.io/server_
 	defer s.transportMu.RUnlock()
 	s.transport.Send(packets...)""",
        """	s.Transport().Send(packets...)""")
+
+# round 4 C03: a third invoker of the callback; header id stored in the parser
+mutant("c03-close-fails-pending-acks-past-the-flags", "C03", "C03-D7", "handler.go",
+       """func dismantleAckFunc(rt reflect.Type) (in []reflect.Type, variadic bool) {""",
+       """func (f *ackHandler) fail(err error) {
+	args := []reflect.Value{reflect.ValueOf(err)}
+	for _, t := range f.inputArgs[1:] {
+		args = append(args, reflect.Zero(t))
+	}
+	f.rv.Call(args)
+}
+
+func dismantleAckFunc(rt reflect.Type) (in []reflect.Type, variadic bool) {""")
+mutant("c03-header-id-in-parser", "C03", "C03-D8", "parser/json/decode.go",
+       """		num, err := strconv.ParseUint(string(data[:i]), 10, 0)
+		if err != nil {
+			return nil, nil, "", err
+		}
+		header.ID = &num""",
+       """		p.id, err = strconv.ParseUint(string(data[:i]), 10, 0)
+		if err != nil {
+			return nil, nil, "", err
+		}
+		header.ID = &p.id""")
+MUTANTS[-1]["then"] = ("parser/json/parser.go", "	r              *reconstructor\n", "	r              *reconstructor\n	id             uint64\n")
+
+# round 4: additive defects
+mutant("c05-last-hit-cache-in-store", "C05", "C05-D10", "store.go",
+       """func (s *serverSocketStore) getByNsp(nsp string) (socket *serverSocket, ok bool) {
+	s.mu.Lock()
+	defer s.mu.Unlock()
+	socket, ok = s.socketsByNsp[nsp]
+	return
+}""",
+       """var lastSocketByNsp *serverSocket
+
+func (s *serverSocketStore) getByNsp(nsp string) (socket *serverSocket, ok bool) {
+	s.mu.Lock()
+	defer s.mu.Unlock()
+	if lastSocketByNsp != nil && lastSocketByNsp.nsp.Name() == nsp {
+		return lastSocketByNsp, true
+	}
+	socket, ok = s.socketsByNsp[nsp]
+	lastSocketByNsp = socket
+	return
+}""")
+mutant("c05-server-acks-taken-from-conn", "C05", "C05-D11", "client_socket.go",
+       "		acks:      make(map[uint64]*ackHandler),",
+       "		acks:      sharedAcks,")
+MUTANTS[-1]["then"] = ("func newClientSocket(", "var sharedAcks = make(map[uint64]*ackHandler)\n\nfunc newClientSocket(")
+mutant("c02-poll-remainder-requeued", "C02", "C02-D8", "engine.io/transport/polling/server.go",
+       """func (t *ServerTransport) QueuedPackets() []*parser.Packet {
+	return t.pq.get()
+}""",
+       """func (t *ServerTransport) QueuedPackets() []*parser.Packet {
+	packets := t.pq.get()
+	if len(packets) > 64 {
+		t.pq.add(packets[64:]...)
+		packets = packets[:64]
+	}
+	return packets
+}""")
+mutant("c04-replay-filter-merged-loops", "C04", "C04-D7", "adapter/adapter_session_aware.go",
+       """		if opts.Except.Contains(sessionRoom) {
+			notExcluded = false
+			break
+		}
+	}
+	return included && notExcluded""",
+       """		if opts.Except.Contains(sessionRoom) {
+			notExcluded = false
+			break
+		}
+		if included {
+			break
+		}
+	}
+	return included && notExcluded""")
+
+# round 4 C06
+mutant("c06-transport-close-swallowed-while-probing", "C06", "C06-D8", "engine.io/server_socket.go",
+       """		if s.TransportName() != name {
+			return
+		}
+
+		if err == nil {
+			s.close(ReasonTransportClose, nil)""",
+       """		if s.TransportName() != name {
+			return
+		}
+		if name == "polling" && err == nil && len(s.upgrades) > 0 {
+			return
+		}
+
+		if err == nil {
+			s.close(ReasonTransportClose, nil)""")
+mutant("c06-onconnect-lock-narrowed", "C06", "C06-D9", "server_socket.go",
+       """	s.connectedMu.Lock()
+	defer s.connectedMu.Unlock()
+
+	// Socket ID is the default room a socket joins to.""",
+       """	// Socket ID is the default room a socket joins to.""")
+MUTANTS[-1]["then"] = ("""	s.sendControlPacket(parser.PacketTypeConnect, &c)
+	s.connected = true""", """	s.sendControlPacket(parser.PacketTypeConnect, &c)
+	s.connectedMu.Lock()
+	s.connected = true
+	s.connectedMu.Unlock()""")
+mutant("c06-sweep-by-namespace-index", "C06", "C06-D10", "store.go",
+       """func (s *serverSocketStore) getAndRemoveAll() (sockets []*serverSocket) {
+	s.mu.Lock()
+	defer s.mu.Unlock()
+
+	sockets = make([]*serverSocket, len(s.socketsByID))
+	i := 0
+	for _, socket := range s.socketsByID {""",
+       """func (s *serverSocketStore) getAndRemoveAll() (sockets []*serverSocket) {
+	s.mu.Lock()
+	defer s.mu.Unlock()
+
+	sockets = make([]*serverSocket, len(s.socketsByNsp))
+	i := 0
+	for _, socket := range s.socketsByNsp {""")
+
+# round 4 C01
+mutant("c01-post-retried-on-error", "C01", "C01-D10", "engine.io/transport/polling/client.go",
+       """	resp, err := t.httpClient.Do(req)
+	if err != nil {
+		t.close(err)
+		return
+	}""",
+       """	resp, err := t.httpClient.Do(req)
+	for tries := 0; err != nil && tries < 1; tries++ {
+		resp, err = t.httpClient.Do(req)
+	}
+	if err != nil {
+		t.close(err)
+		return
+	}""")
+mutant("c01-parser-reset-while-connected", "C01", "C01-D11", "client_manager_conn.go",
+       """	m.stateMu.Lock()
+	if m.state == clientConnStateConnected {""",
+       """	m.resetParser()
+	m.stateMu.Lock()
+	if m.state == clientConnStateConnected {""")
